@@ -853,6 +853,58 @@ func (r *c20run) convertBatch(dir string, ins []string) ([]map[string]string, er
 	return status, nil
 }
 
+// reconvert: a report is a function of the record, not of what the report file held before - the
+// longest tree of the batch is converted into one file, then the shortest one into the SAME file;
+// the result must equal the conversion of the shortest tree into a fresh file (all three formats).
+func (r *c20run) reconvert(dir string, ins []string, all [][]*c20rec) {
+	kl, ks := 0, 0
+	for k := range all {
+		if len(all[k]) > len(all[kl]) {
+			kl = k
+		}
+		if len(all[k]) < len(all[ks]) {
+			ks = k
+		}
+	}
+	if kl == ks {
+		return
+	}
+	list := filepath.Join(dir, "reconv.txt")
+	var sb strings.Builder
+	for _, f := range c20formats {
+		out := filepath.Join(dir, "reconv."+c20ext[f])
+		sb.WriteString(f + "\t" + ins[kl] + "\t" + out + "\n")
+		sb.WriteString(f + "\t" + ins[ks] + "\t" + out + "\n")
+	}
+	os.WriteFile(list, []byte(sb.String()), 0644)
+	c20sh("cd " + dir + " && TZ=UTC " + r.vc20 + " verif-batch " + list + " 2>&1")
+	for _, f := range c20formats {
+		again, err1 := os.ReadFile(filepath.Join(dir, "reconv."+c20ext[f]))
+		fresh, err2 := os.ReadFile(strings.Replace(ins[ks], ".audit.json", ".audit."+c20ext[f], 1))
+		if err1 != nil || err2 != nil {
+			continue // a failing conversion is reported by the enumeration itself
+		}
+		r.res.Extra["reconversions"]++
+		// parameters and tags are rendered in map-iteration order: compare the byte histograms (a
+		// permutation leaves them equal, anything left over from the old report does not)
+		var ha, hf [256]int
+		for _, b := range again {
+			ha[b]++
+		}
+		for _, b := range fresh {
+			hf[b]++
+		}
+		if ha != hf {
+			n := len(fresh)
+			if len(again) < n {
+				n = len(again)
+			}
+			same := string(again[:n]) == string(fresh[:n])
+			r.finding(f, c20finding{class: "stale-report-content", sub: "reconv", detail: fmt.Sprintf("converting a %d-record tree into a file that held the report of a %d-record tree gives %d bytes, into a fresh file %d bytes (fresh report is a prefix of it: %v)", len(all[ks]), len(all[kl]), len(again), len(fresh), same && len(again) > len(fresh))}, "reconvert", "re-conversion into an existing report file")
+		}
+	}
+}
+
 // runScript: real bash, in a fresh directory that holds only the given source files.
 func (r *c20run) runScript(script string, sources map[string]string, want string) (string, bool, string) {
 	r.execs++
@@ -1045,6 +1097,9 @@ func (r *c20run) enumerate() {
 			}
 		}
 		status, err := r.convertBatch(dir, ins)
+		if err == nil && b0 == 0 && len(ins) >= 2 {
+			r.reconvert(dir, ins, all)
+		}
 		if err != nil {
 			res.Error = "c20: " + err.Error()
 			return
